@@ -33,8 +33,8 @@ import (
 // ellipsis call, recurses, or would appear twice in the same flattened body.
 // When nothing is inlined the function itself is returned.
 func (p *Program) Flatten(f *Func) *Func {
-	if f == nil || f.Decl == nil || f.Body == nil {
-		return f
+	if f == nil || f.Decl == nil || f.Body == nil || f.Origin != nil {
+		return f // nothing to show differently, or a view already
 	}
 	if p.flat == nil {
 		p.flat = map[*Func]*Func{}
@@ -57,11 +57,14 @@ func (p *Program) Flatten(f *Func) *Func {
 	fl.block(body0)
 	fl.dry = false
 	body, changed := fl.block(body0)
-	if !changed && !tch {
+	if !changed && !tch && methodLikeDecl(f) == nil {
 		p.flat[f] = f
 		return f
 	}
 	ff := &Func{Pkg: f.Pkg, Name: f.Name, Decl: f.Decl, Body: body, Type: f.Type, Members: map[*Func]bool{f: true}, Origin: f}
+	if d2 := methodLikeDecl(f); d2 != nil {
+		ff.Decl, ff.Type = d2, d2.Type // the object parameter shown as the receiver it is
+	}
 	for h := range fl.inlined {
 		ff.Members[h] = true
 	}
@@ -798,4 +801,44 @@ func clausesTerminate(b *ast.BlockStmt) bool {
 		}
 	}
 	return hasDefault
+}
+
+// methodLikeDecl: for a method-like function (see MethodLikeFunc) a copy of its declaration in which the object
+// parameter is the receiver; nil otherwise.
+func methodLikeDecl(f *Func) *ast.FuncDecl {
+	if f.Decl == nil || f.Decl.Recv != nil || f.Obj() == nil {
+		return nil
+	}
+	k := MethodLikeFunc(f.Pkg.Types, f.Obj())
+	if k < 0 {
+		return nil
+	}
+	// locate the k-th parameter name
+	var recvField *ast.Field
+	var rest []*ast.Field
+	i := 0
+	for _, fld := range f.Decl.Type.Params.List {
+		if len(fld.Names) == 0 {
+			return nil
+		}
+		var keep []*ast.Ident
+		for _, nme := range fld.Names {
+			if i == k {
+				recvField = &ast.Field{Names: []*ast.Ident{nme}, Type: fld.Type}
+			} else {
+				keep = append(keep, nme)
+			}
+			i++
+		}
+		if len(keep) == len(fld.Names) {
+			rest = append(rest, fld)
+		} else if len(keep) > 0 {
+			rest = append(rest, &ast.Field{Doc: fld.Doc, Names: keep, Type: fld.Type, Tag: fld.Tag, Comment: fld.Comment})
+		}
+	}
+	if recvField == nil {
+		return nil
+	}
+	t := &ast.FuncType{Func: f.Decl.Type.Func, TypeParams: f.Decl.Type.TypeParams, Params: &ast.FieldList{List: rest}, Results: f.Decl.Type.Results}
+	return &ast.FuncDecl{Doc: f.Decl.Doc, Recv: &ast.FieldList{List: []*ast.Field{recvField}}, Name: f.Decl.Name, Type: t, Body: f.Decl.Body}
 }
